@@ -116,7 +116,7 @@ func (tests *Tests) ReportMissedTests(p *Process) {
 }
 
 func testIsMap(b []byte, dt string, property string) (TestStatus, string) {
-	fork := ShellProcess.Fork(F_CREATE_STDIN)
+	fork := ShellProcess.Fork(F_PARENT_VARTABLE | F_CREATE_STDIN)
 	fork.Stdin.SetDataType(dt)
 	_, err := fork.Stdin.Write(b)
 	if err != nil {
@@ -138,7 +138,7 @@ func testIsMap(b []byte, dt string, property string) (TestStatus, string) {
 }
 
 func testIsArray(b []byte, dt string, property string) (TestStatus, string) {
-	fork := ShellProcess.Fork(F_CREATE_STDIN)
+	fork := ShellProcess.Fork(F_PARENT_VARTABLE | F_CREATE_STDIN)
 	fork.Stdin.SetDataType(dt)
 	_, err := fork.Stdin.Write(b)
 	if err != nil {
@@ -160,7 +160,7 @@ func testIsArray(b []byte, dt string, property string) (TestStatus, string) {
 }
 
 func testIsGreaterThanOrEqualTo(b []byte, dt string, property string, comparison int) (TestStatus, string) {
-	fork := ShellProcess.Fork(F_CREATE_STDIN)
+	fork := ShellProcess.Fork(F_PARENT_VARTABLE | F_CREATE_STDIN)
 	fork.Stdin.SetDataType(dt)
 	_, err := fork.Stdin.Write(b)
 	if err != nil {
